@@ -6,6 +6,36 @@ from ..core import Broken
 from .lfht import fn, bits, NEXT, RH
 
 
+def _shift_of(e, var):
+    """k such that e == 1 << (var + k), however the exponent is written; None when e is not of that family"""
+    from .. import linear
+    if e[0] == "bin" and e[1] == "lshr" and e[3][0] == "c":
+        k = _shift_of(e[2], var)
+        return None if k is None else k - e[3][1]
+    if e[0] == "bin" and e[1] == "shl" and e[2] != ("c", 1) and e[3][0] == "c":
+        k = _shift_of(e[2], var)
+        return None if k is None else k + e[3][1]
+    if not (e[0] == "bin" and e[1] == "shl" and e[2] == ("c", 1)):
+        return None
+    n = linear.norm(e[3])
+    if n is None:
+        return None
+    t = linear._term(var)
+    rest = {k_: v for k_, v in n.items() if k_ != 1}
+    if rest != {t: 1}:
+        return None
+    return n.get(1, 0)
+
+
+def _check_shift(rep, rid, inst, e, var, want_k, okmsg, badmsg, sites):
+    """expected shift => pass, another shift of the same family => violation, anything else => inconclusive"""
+    k = _shift_of(e, var)
+    if k is None:
+        raise Broken("%s: %s is not of the form 1 << (level + k): not comparable" % (inst, ir.expr_str(e)))
+    rep.check(k == want_k, rid, inst, okmsg, badmsg % ir.expr_str(e), sites)
+    return k == want_k
+
+
 def _sel_flag(e, B, base_pred):
     """e == select((X and BUCKET) != 0, (base or BUCKET), base) with base_pred(base)"""
     if e[0] != "select":
@@ -297,19 +327,13 @@ def rule_levels(ctx, rep, rid):
             rep.check(i_ == lvl and i_[0] == "phi", rid, "%s.%s.level" % (name, c.callee), "%s works on the loop's level" % c.callee, "%s is given level %s" % (c.callee, ir.expr_str(i_)), [c.where()])
             if c.callee in ("init_table_populate", "remove_table", "partition_resize_helper"):
                 ln = ir.expr(f, c.args[2], 6)
-                okl = ln == ("bin", "shl", ("c", 1), ("bin", "sub", lvl, ("c", 1))) or ln == ("bin", "shl", ("c", 1), ("bin", "add", lvl, ("c", -1)))
-                rep.check(okl, rid, "%s.%s.len" % (name, c.callee), "level i is processed with len = 1 << (i - 1)", "level i is processed with len = %s: buckets beyond the level are written / part of it is left untouched" % ir.expr_str(ln), [c.where()])
+                _check_shift(rep, rid, "%s.%s.len" % (name, c.callee), ln, lvl, -1, "level i is processed with len = 1 << (i - 1)", "level i is processed with len = %s: buckets beyond the level are written / part of it is left untouched", [c.where()])
         szs = [s for s in pat.stores(f, "cds_lfht.size")]
         pat.require(szs and lvl is not None, name + ": size store")
         for s in szs:
             v = ir.expr(f, s.args[0], 6)
-            if name == "init_table":
-                okv = v == ("bin", "shl", ("c", 1), lvl)
-                want = "1 << i"
-            else:
-                okv = v in (("bin", "shl", ("c", 1), ("bin", "sub", lvl, ("c", 1))), ("bin", "shl", ("c", 1), ("bin", "add", lvl, ("c", -1))))
-                want = "1 << (i - 1)"
-            rep.check(okv, rid, name + ".size-value", "publishes size = %s" % want, "publishes size = %s, expected %s" % (ir.expr_str(v), want), [s.where()])
+            want = "1 << i" if name == "init_table" else "1 << (i - 1)"
+            _check_shift(rep, rid, name + ".size-value", v, lvl, 0 if name == "init_table" else -1, "publishes size = %s" % want, "publishes size = %s, expected " + want, [s.where()])
         # early exits
         tg = lambda e: e[0] == "load" and e[1].endswith("cds_lfht.resize_target")
         brk = []
@@ -317,8 +341,9 @@ def rule_levels(ctx, rep, rid):
             brk.append((t, s_, a))
         pat.require(brk, name + ": resize_target test")
         if name == "init_table":
-            want = ("bin", "shl", ("c", 1), lvl)
-            good = [x for x in brk if x[2][0] in ("ult", "uge") and tg(x[2][1]) and x[2][2] == want]
+            good = [x for x in brk if x[2][0] in ("ult", "uge") and tg(x[2][1]) and _shift_of(x[2][2], lvl) == 0]
+            if any(_shift_of(x[2][2], lvl) is None for x in brk if tg(x[2][1])):
+                raise Broken("init_table: resize_target is compared with something that is not 1 << (i + k)")
             rep.check(len(good) == len(brk), rid, name + ".target-test", "growth stops when resize_target < 1 << i", "growth is cancelled on %s" % [ir.atom_str(x[2]) for x in brk if x not in good][:2], [brk[0][0].where()])
             for t, s_, a in good:
                 body = f.reach([f.blocks[s_].insts[0]], [c for c in calls if c.blk.id != t.blk.id], include_start=True, avoid=lambda i, t=t: i is t)[0] is not None
@@ -335,8 +360,9 @@ def rule_levels(ctx, rep, rid):
                         rep.check(hit is None, rid, name + ".stops-for-destroy", "a destroy in progress ends the growth (no further level allocated / populated / published)",
                                   "after seeing in_progress_destroy the growth continues: destroy waits for a resize that keeps allocating", [t.where()])
         else:
-            wants = (("bin", "shl", ("c", 1), ("bin", "sub", lvl, ("c", 1))), ("bin", "shl", ("c", 1), ("bin", "add", lvl, ("c", -1))))
-            good = [x for x in brk if x[2][0] in ("ugt", "ule") and tg(x[2][1]) and x[2][2] in wants]
+            good = [x for x in brk if x[2][0] in ("ugt", "ule") and tg(x[2][1]) and _shift_of(x[2][2], lvl) == -1]
+            if any(_shift_of(x[2][2], lvl) is None for x in brk if tg(x[2][1])):
+                raise Broken("fini_table: resize_target is compared with something that is not 1 << (i + k)")
             rep.check(len(good) == len(brk), rid, name + ".target-test", "shrinking stops when resize_target > 1 << (i - 1)", "shrinking is cancelled on %s" % [ir.atom_str(x[2]) for x in brk if x not in good][:2], [brk[0][0].where()])
             for t, s_, a in good:
                 body = f.reach([f.blocks[s_].insts[0]], [c for c in calls if c.blk.id != t.blk.id and c.callee != "cds_lfht_free_bucket_table"] + szs, include_start=True, avoid=lambda i, t=t: i is t)[0] is not None
@@ -540,12 +566,19 @@ def rule_partloops(ctx, rep, rid):
         pat.require(j[0] == "phi", name + ": loop index")
         ph = g.insts[j[1]]
         incs = [ir.expr(g, v, 6) for v, _b in ph.d["inc"]]
-        size = ("bin", "shl", ("c", 1), ("bin", "sub", ("arg", 1), ("c", 1)))
-        size2 = ("bin", "shl", ("c", 1), ("bin", "add", ("arg", 1), ("c", -1)))
-        init = [x for x in incs if x in (("bin", "add", size, ("arg", 2)), ("bin", "add", size2, ("arg", 2)), ("bin", "add", ("arg", 2), size), ("bin", "add", ("arg", 2), size2))]
-        step = [x for x in incs if x == ("bin", "add", ("phi", ph.id), ("c", 1))]
-        other = [x for x in incs if x not in init and x not in step]
-        rep.check(bool(init) and bool(step) and not other, rid, name + ".index", "index runs from (1 << (i - 1)) + start in steps of +1",
+        def start_shift(x):
+            """k if x == (1 << (i + k)) + start"""
+            if x[0] == "bin" and x[1] == "add":
+                for a_, b_ in ((x[2], x[3]), (x[3], x[2])):
+                    if b_ == ("arg", 2):
+                        return _shift_of(a_, ("arg", 1))
+            return None
+        step = [x for x in incs if x[0] == "bin" and x[1] == "add" and x[2] == ("phi", ph.id) and x[3][0] == "c"]
+        init = [x for x in incs if x not in step]
+        ks = [start_shift(x) for x in init]
+        if len(init) != 1 or len(step) != 1 or ks[0] is None:
+            raise Broken("%s: loop index %s is not of the form (1 << (i + k)) + start, step c: not comparable" % (name, [ir.expr_str(x) for x in incs]))
+        rep.check(ks[0] == -1 and step[0][3] == ("c", 1), rid, name + ".index", "index runs from (1 << (i - 1)) + start in steps of +1",
                   "loop index takes %s: expected start (1 << (i-1)) + start and step +1 - buckets of another level are touched / the level is walked backwards into other memory" % [ir.expr_str(x) for x in incs], [ba[0].where()])
         bound = [a for t, s_, a in pat.branch_edges_on(g, lambda a: len(a) == 3 and a[1] == ("phi", ph.id))]
         okb = any(a[0] in ("ult", "uge") and ir.expr_contains(a[2], lambda z: z == ("arg", 3)) and ir.expr_contains(a[2], lambda z: z == ("arg", 2)) for a in bound)
@@ -593,11 +626,19 @@ def rule_createbucket(ctx, rep, rid):
     pat.require(len(par) == 1, "create_bucket: parent index")
     iph = f.insts[par[0][1]]
     child = [x for x in idx if x is not par[0]][0]
-    okchild = child in (("bin", "add", ln, par[0]), ("bin", "add", ln2, par[0]), ("bin", "add", par[0], ln), ("bin", "add", par[0], ln2))
-    rep.check(okchild, rid, "create.child-index", "child bucket index = (1 << (order - 1)) + i", "child bucket index is %s" % ir.expr_str(child), [inner[0].where()])
+    ck = None
+    if child[0] == "bin" and child[1] == "add":
+        for a_, b_ in ((child[2], child[3]), (child[3], child[2])):
+            if b_ == par[0]:
+                ck = _shift_of(a_, ("phi", oph.id))
+    if ck is None:
+        raise Broken("create_bucket: child index %s is not of the form (1 << (order + k)) + i" % ir.expr_str(child))
+    rep.check(ck == -1, rid, "create.child-index", "child bucket index = (1 << (order - 1)) + i", "child bucket index is %s" % ir.expr_str(child), [inner[0].where()])
     ib = [a for t, s_, a in pat.branch_edges_on(f, lambda a: len(a) == 3 and a[1] == ("phi", iph.id))]
-    okib = any(a[0] in ("ult", "uge") and a[2] in (ln, ln2) for a in ib)
-    rep.check(okib, rid, "create.inner-bound", "i runs over 0 .. len - 1", "inner loop bound is %s" % [ir.atom_str(a) for a in ib][:2], [inner[0].where()])
+    bk = [_shift_of(a[2], ("phi", oph.id)) for a in ib if a[0] in ("ult", "uge")]
+    if not bk or None in bk:
+        raise Broken("create_bucket: inner loop bound %s is not of the form i < 1 << (order + k)" % [ir.atom_str(a) for a in ib][:2])
+    rep.check(all(k_ == -1 for k_ in bk), rid, "create.inner-bound", "i runs over 0 .. len - 1", "inner loop bound is %s" % [ir.atom_str(a) for a in ib][:2], [inner[0].where()])
     iin = [ir.expr(f, v, 4) for v, _b in iph.d["inc"]]
     rep.check(("c", 0) in iin and ("bin", "add", ("phi", iph.id), ("c", 1)) in iin, rid, "create.inner-step", "i = 0, 1, ...", "i takes %s" % [ir.expr_str(x) for x in iin], [inner[0].where()])
     rhs = [s for s in pat.stores(f, RH) if ir.const_of(f, s.args[0]) is None]
